@@ -182,6 +182,18 @@ Theorem C05_touch_waiver : forall o c,
 Proof. intros o c. split; [apply touch_waiver_key|apply touch_waiver_cert]. Qed.
 Print Assumptions C05_touch_waiver.
 
+(* Host-based authentication (decision only): accepted => the key is trusted for the host name the SERVER
+   resolved (for the claimed one only under trust_client_host), the signature verified and the application
+   agreed. *)
+Theorem C05_hostbased_resolved_host : forall trust claimed resolved kh k sig_ok user_ok,
+  hb_decide trust claimed resolved kh k sig_ok user_ok = true ->
+  hb_trusted kh (if trust then strip_dot claimed else resolved) k = true /\ sig_ok = true /\ user_ok = true.
+Proof.
+  intros trust claimed resolved kh k sig_ok user_ok H. unfold hb_decide, hb_lookup_host in H.
+  apply andb_true_iff in H as [H H3]. apply andb_true_iff in H as [H1 H2]. auto.
+Qed.
+Print Assumptions C05_hostbased_resolved_host.
+
 (* Keys are never inherited across a user-name switch: whenever packets are being processed, the
    authorized keys in force are the configured ones or the ones the application installed during
    begin_auth for the CURRENT user name (reload_config puts the configured set back before every begin_auth;
